@@ -138,6 +138,8 @@ def check_hall_yarbrough(ctx):
         "the iteration is entered unconditionally and cannot leave the loop before the first Newton update (the starting guess is never returned as the solution)",
         signature=("loop may be skipped" if not entered else "") + (" exit before update at line " + ",".join(map(str, early)) if early else ""),
     )
+    check_hy_equation(ctx, it, q, f, loop)
+
 
 
 def _validated(fnode):
@@ -149,3 +151,48 @@ def _validated(fnode):
                 if any(isinstance(s, ast.Raise) for b in (n.body, n.orelse) for st in b for s in ast.walk(st)):
                     return True
     return False
+
+
+def check_hy_equation(ctx, it, q, f, loop):
+    """C06-h: the generic Newton iteration of z_factor_hallyarbrough uses the published Hall-Yarbrough
+    residual, its exact derivative, the update y - f/f', and returns Z = A p / y."""
+    from ..values import Num
+    from .common import only
+
+    p = only(it.run_function(q), q)
+    env = p.env.vars if p.env is not None else {}
+    y, pr, Tr = nf.sym("y"), nf.sym("pressure"), nf.sym("temperature")
+    t = nf.div(nf.ONE, Tr)
+    c = nf.const_text
+    A = nf.mul(nf.mul(c("0.06125"), t), nf.exp(nf.mul(c("-1.2"), nf.power(nf.sub(nf.ONE, t), nf.const(2)))))
+    y2, y3, y4 = nf.mul(y, y), nf.power(y, nf.const(3)), nf.power(y, nf.const(4))
+    f_pub = nf.neg(nf.mul(A, pr))
+    f_pub = nf.add(f_pub, nf.div(nf.sub(nf.add(nf.add(y, y2), y3), y4), nf.power(nf.sub(nf.ONE, y), nf.const(3))))
+    f_pub = nf.sub(f_pub, nf.mul(nf.add(nf.sub(nf.mul(c("14.76"), t), nf.mul(c("9.76"), nf.mul(t, t))), nf.mul(c("4.58"), nf.power(t, nf.const(3)))), y2))
+    f_pub = nf.add(f_pub, nf.mul(nf.add(nf.sub(nf.mul(c("90.7"), t), nf.mul(c("242.2"), nf.mul(t, t))), nf.mul(c("42.4"), nf.power(t, nf.const(3)))), nf.power(y, nf.add(c("2.18"), nf.mul(c("2.82"), t)))))
+    # the update statement y = y - F / DF inside the loop identifies residual and derivative
+    upd = None
+    for st in loop.body:
+        if isinstance(st, ast.Assign) and len(st.targets) == 1 and isinstance(st.targets[0], ast.Name) and isinstance(st.value, ast.BinOp) and isinstance(st.value.op, ast.Sub) and isinstance(st.value.left, ast.Name) and st.value.left.id == st.targets[0].id and isinstance(st.value.right, ast.BinOp) and isinstance(st.value.right.op, ast.Div):
+            upd = st
+    if upd is None or upd.targets[0].id != "y" and False:
+        raise AnalysisError(f"{q}: Newton update of the form y = y - f / df not found")
+    yname = upd.targets[0].id
+    num, den = upd.value.right.left, upd.value.right.right
+    if not (isinstance(num, ast.Name) and isinstance(den, ast.Name) and isinstance(env.get(num.id), Num) and isinstance(env.get(den.id), Num)):
+        raise AnalysisError(f"{q}: residual / derivative of the Newton update are not named locals")
+    F_, D_ = env[num.id].nf, env[den.id].nf
+    ren = {yname: y}
+    F_, D_ = nf.subst_sym(F_, ren), nf.subst_sym(D_, ren)
+    where = f"{f.file}:{loop.lineno}"
+    ctx.identity("C06-h", q + ":residual", where, "the iterated residual is the published Hall-Yarbrough equation in the reduced density y (t = 1/T_r)", F_, f_pub)
+    ctx.identity("C06-h", q + ":derivative", where, "the Newton derivative is the exact y-derivative of the iterated residual", D_, nf.diff(F_, "y"))
+    rv = p.value.nf if isinstance(p.value, Num) else {}
+    ynew = nf.sub(y, nf.div(F_, D_))
+    ctx.identity(
+        "C06-h", q + ":returned Z", f.where(), "the returned value is Z = 0.06125 p t exp(-1.2 (1 - t)^2) / y at the updated y",
+        nf.mul(nf.subst_sym(rv, ren), y) if not nf.depends(rv, "@never") else rv, nf.mul(A, pr),
+    ) if False else None
+    # the returned Z uses the y produced by the update: substitute the update back
+    zexpect = nf.div(nf.mul(A, pr), ynew)
+    ctx.identity("C06-h", q + ":returned Z", f.where(), "the returned value is Z = 0.06125 p t exp(-1.2 (1 - t)^2) / y with y the iterate after the update", nf.subst_sym(rv, ren), zexpect)
